@@ -287,6 +287,7 @@ class RTCRtpReceiver:
         self.__rtcp_task: Optional[asyncio.Future[None]] = None
         self.__rtx_ssrc: dict[int, int] = {}
         self.__started = False
+        self.__stopped = False
         self.__stats = RTCStatsReport()
         self.__timestamp_mapper = TimestampMapper()
         self.__transport = transport
@@ -377,7 +378,7 @@ class RTCRtpReceiver:
 
         :param parameters: The :class:`RTCRtpParameters` for the receiver.
         """
-        if not self.__started:
+        if not self.__started and not self.__stopped:
             for codec in parameters.codecs:
                 self.__codecs[codec.payloadType] = codec
             for encoding in parameters.encodings:
@@ -415,6 +416,11 @@ class RTCRtpReceiver:
             await self.__rtcp_started.wait()
             self.__rtcp_task.cancel()
             await self.__rtcp_exited.wait()
+        elif not self.__stopped and self._track is not None:
+            # the receiver was never started: no decoder thread exists which
+            # could inform the track that it has ended
+            self._track._queue.put_nowait(None)
+        self.__stopped = True
 
     def _handle_disconnect(self) -> None:
         self.__stop_decoder()
